@@ -1535,19 +1535,11 @@ fn display_cedarvaluejson(
                     None
                 }
             });
-            match style {
-                Some(ast::CallStyle::MethodStyle) => {
-                    #[expect(
-                        clippy::indexing_slicing,
-                        reason = "method-style calls must have more than one argument"
-                    )]
-                    display_cedarvaluejson(f, &args[0], n)?;
+            match (style, &args[..]) {
+                (Some(ast::CallStyle::MethodStyle), [receiver, rest @ ..]) => {
+                    display_cedarvaluejson(f, receiver, n)?;
                     write!(f, ".{ext_fn}(")?;
-                    #[expect(
-                        clippy::indexing_slicing,
-                        reason = "method-style calls must have more than one argument"
-                    )]
-                    match &args[1..] {
+                    match rest {
                         [] => {}
                         [args @ .., last] => {
                             for arg in args {
@@ -1560,9 +1552,11 @@ fn display_cedarvaluejson(
                     write!(f, ")")?;
                     Ok(())
                 }
-                Some(ast::CallStyle::FunctionStyle) | None => {
+                // function style, unknown function, or a (malformed) method-style
+                // call without a receiver, which JSON input can contain
+                (_, args) => {
                     write!(f, "{ext_fn}(")?;
-                    match &args[..] {
+                    match args {
                         [] => {}
                         [args @ .., last] => {
                             for arg in args {
